@@ -876,7 +876,11 @@ impl Hooks for Engine {
         if st.branching && crate::alloc::quarantined(addr) {
             // the operation that is about to execute touches memory that has been freed
             let f = loc.file();
-            let rel = f.rsplit_once("/repo/").map(|x| x.1).unwrap_or(f);
+            // crate relative, so that the clause does not depend on where the checkout lives
+            let rel = match f.rfind("/may_queue/src/") {
+                Some(i) => &f[i + 1..],
+                None => f.rfind("/src/").map(|i| &f[i + 1..]).unwrap_or(f),
+            };
             let clause = format!("use_after_free@{}", rel);
             let msg = format!("use after free: {:?} at {}:{} is about to access {:#x}, which lies in a freed (quarantined) block", op, rel, loc.line(), addr);
             self.finish_locked(st, ST_FAIL, &clause, &msg);
